@@ -28,7 +28,7 @@ ASSUMPTIONS = ["float64 CPU, scf_eps 1e-11, Pulay", "fragments: neutral closed-s
                "(1 + 10 A / R) for dipole-quadrupole, quadrupoles up to 3 e A^2, noise floors 2e-11 eV / 2e-9 eV/A",
                "generic orientations only (no pair vector within 5 degrees of a Cartesian axis)"]
 REQUIRED_MONITORS = ["parser_calls_default_cutoff", "parser_calls_finite_cutoff", "separations_judged",
-                     "cut_dimers_judged", "parser_batches_judged"]
+                     "cut_dimers_judged", "parser_batches_judged", "pm6_d_fragment_cases"]
 # thorough tier: cases not started after this many seconds are skipped and reported (env override for smoke tests)
 BUDGET_S = {"thorough": float(__import__("os").environ.get("VERIF_C19_BUDGET", "1500"))}
 CASE_TIMEOUT = 900.0
@@ -60,17 +60,25 @@ def gen_cases(tier, seed):
         Rs = R_ALL
     else:
         plan = [(["AM1", "PM3", "MNDO", "PM6_SP"][i % 4], 3 if i % 4 == 3 or i % 7 == 0 else 2) for i in range(84)]
-        plan += [("PM6", 2), ("PM6", 2)]
         nparser = 400
         Rs = R_ALL
     for method, n in plan:
         names = [x for x in FRAGS if gen.available(x, method)]
-        if method == "PM6":
-            names = [x for x in names if x in ("H2O", "NH3", "HCl", "H2S", "CH3Cl", "HF", "CO")]
         pick = [names[int(i)] for i in g.permutation(len(names))[:n]]
         cases.append({"kind": "frag", "method": method, "frags": pick, "seed": int(g.integers(0, 2**31)), "Rs": Rs,
                       "cutoffs": [10.0, 15.0, 25.0] if tier == "thorough" else [[10.0, 25.0], [15.0], [10.0], [25.0, 15.0]][len(cases) % 4]})
     cases.sort(key=lambda c: -sum(len(gen.molecule(f)[0]) for f in c["frags"]))
+    # PM6 (d orbitals): exactly ONE d-bearing atom in the whole system (PM6 pairs of two d atoms are an open rotation-invariance
+    # finding of C02), next to an H-bearing sp fragment: drives the d-element - hydrogen integral branch at long range.
+    # Drawn from a generator of their own so that the cases above are unchanged.
+    gp = gen.rng("C19", tier, "pm6")
+    dfr, hfr = ["H2S", "HCl", "PH3", "SiH4"], ["CH4", "H2O", "NH3", "HF"]
+    npm6 = 2 if tier == "quick" else 12
+    off = int(gp.integers(0, 4))
+    pm6 = [{"kind": "frag", "method": "PM6", "frags": [dfr[(i + off) % 4], hfr[(i * 3 + i // 4 + off) % 4] if i else "CH4"],
+            "seed": int(gp.integers(0, 2**31)), "Rs": [20, 50, 100, 200, 500] if tier == "quick" else R_ALL,
+            "cutoffs": [15.0]} for i in range(npm6)]
+    cases = pm6 + cases
     frag_cases, cases = cases, []
     for i in range(nparser):
         method = ["AM1", "PM3", "MNDO", "PM6_SP"][i % 4]
@@ -133,23 +141,34 @@ def _merge(frs):
     return [Z[i] for i in order], X[order], np.array([fid[i] for i in order]), [lid[i] for i in order]
 
 
-def _block_density(fid, lid, iso):
+def _block_density(fid, lid, iso, nao=4):
     """superposition of the isolated fragment densities in the AO order of the merged system (4 AOs per atom)."""
     N = len(fid)
-    P = np.zeros((4 * N, 4 * N))
+    P = np.zeros((nao * N, nao * N))
     for a in range(N):
         for b in range(N):
             if fid[a] == fid[b]:
                 Pf = iso[fid[a]]["dm"][0]
-                P[4 * a:4 * a + 4, 4 * b:4 * b + 4] = Pf[4 * lid[a]:4 * lid[a] + 4, 4 * lid[b]:4 * lid[b] + 4]
+                P[nao * a:nao * a + nao, nao * b:nao * b + nao] = Pf[nao * lid[a]:nao * lid[a] + nao, nao * lid[b]:nao * lid[b] + nao]
     return P[None, :, :]
+
+
+def _nao(method):
+    return 9 if method == "PM6" else 4
+
+
+def _norb_of(Z, method):
+    return sum(1 if z == 1 else (9 if (method == "PM6" and 13 <= z <= 17) else 4) for z in Z)
+
+
+D_ATOM_MU = 0.5          # e A: allowance per d-bearing atom (PM6) for the p-d hybridisation dipole the independent estimate omits
 
 
 def _qn(z):
     return 1 if z <= 2 else (2 if z <= 10 else 3)
 
 
-def _dipole_indep(Z, X, out, mol):
+def _dipole_indep(Z, X, out, mol, nao=4):
     """dipole (e A) = sum_A q_A r_A - 2 sum_A D1_A P_{s,p}(A), D1 from the closed form with the shipped zetas."""
     q = out["q"][0][:len(Z)]
     P = out["dm"][0]
@@ -160,7 +179,7 @@ def _dipole_indep(Z, X, out, mol):
         if z > 1:
             n = _qn(z)
             d1 = (2 * n + 1) * (4 * zs[a] * zp[a]) ** (n + 0.5) / ((zs[a] + zp[a]) ** (2 * n + 2) * 3 ** 0.5) * A0
-            mu -= 2.0 * d1 * P[4 * a, 4 * a + 1:4 * a + 4]
+            mu -= 2.0 * d1 * P[nao * a, nao * a + 1:nao * a + 4]
     return mu
 
 
@@ -219,7 +238,11 @@ def _run_frag(case):
         return r > 1.0
 
     sett = _settings(method)
+    nao = _nao(method)
     cells.add("%s/%d-fragments" % (method, nfr))
+    if method == "PM6":
+        cells.add("PM6/d-fragment=%s/partner=%s" % (case["frags"][0], "+".join(case["frags"][1:])))
+        cnt("pm6_d_fragment_cases")
     # --- isolated fragments at the smallest separation: eligibility + independent dipoles -------------------
     mus, kos, rhomax = [], [], 0.0
     for (Z, X) in placed[0]:
@@ -229,15 +252,15 @@ def _run_frag(case):
             return {"ineligible": "isolated fragment not converged"}
         if abs(float(o2["Etot"][0]) - float(o1["Etot"][0])) > 1e-6:
             return {"ineligible": "isolated fragment has solver-dependent SCF solutions (C04 domain)"}
-        nocc, no = int(o2["nocc"][0]), int(o2["norb"][0])
+        nocc, no = int(o2["nocc"][0]), _norb_of(Z, method)
         if nocc >= no or o2["e_mo"][0][nocc] - o2["e_mo"][0][nocc - 1] < 2.0:
             return {"ineligible": "fragment gap < 2 eV"}
-        mu = _dipole_indep(Z, X - X.mean(axis=0), o2, o2["_mol"])
+        mu = _dipole_indep(Z, X - X.mean(axis=0), o2, o2["_mol"], nao)
         rep = o2.get("dipole")
         if rep is not None:
             # auxiliary evidence only: agreement of the independent dipole with the reported one (a.u. -> e A)
             upd("aux_dipole_indep_vs_reported", np.abs(mu - rep[0] * A0).max(), 1e-3 * max(0.05, float(np.linalg.norm(mu))))
-        mus.append(float(np.linalg.norm(mu)))
+        mus.append(float(np.linalg.norm(mu)) + (D_ATOM_MU * sum(1 for z in Z if 13 <= z <= 17) if method == "PM6" else 0.0))
         # Klopman-Ohno monopole damping: k/sqrt(R^2+(rho_A+rho_B)^2) = k/R - k (rho_A+rho_B)^2/(2R^3) + ...; summed over the
         # atom pairs of two neutral fragments the R^-3 part is  -k (sum_A q_A rho_A)(sum_B q_B rho_B)/R^3  (isotropic):
         # a genuine R^-3 term of the NDDO model on top of the dipole-dipole one.  rho0 = e^2/(2 g_ss) in A.
@@ -309,7 +332,7 @@ def _run_frag(case):
                     if dq_f / bqs[f] >= wq[0] / wq[1]:
                         wq = (dq_f, bqs[f])
                 d["dF"], d["dq"] = wF, wq
-                eu = np.sort(np.concatenate([o["e_mo"][0][:int(o["norb"][0])] for o in iso]))
+                eu = np.sort(np.concatenate([o["e_mo"][0][:_norb_of(zz, method)] for o, (zz, _) in zip(iso, cur)]))
                 ed = np.sort(out["e_mo"][0][:len(eu)])
                 d["de_mo"] = (float(np.abs(eu - ed).max()), bemo)
                 return d
@@ -331,7 +354,7 @@ def _run_frag(case):
             if bad:
                 # same dimer started from the superposition of the isolated fragment densities: decides whether the
                 # Hamiltonian is non-additive (mech None) or the cold-start SCF landed on another stationary state
-                warm = run.single_point(Z, X, sett, P0=_block_density(fid, lid, iso))
+                warm = run.single_point(Z, X, sett, P0=_block_density(fid, lid, iso, nao))
                 cnt("warm_start_reruns")
                 if not bool(warm["notconverged"][0]):
                     wdev = deviations(warm)
@@ -382,7 +405,7 @@ def _run_frag(case):
                         mech = None
                         dE_m = dE
                         if abs(dE) > TOL_CUT:
-                            warm = run.single_point(Z, X, settc, P0=_block_density(fid, lid, iso))
+                            warm = run.single_point(Z, X, settc, P0=_block_density(fid, lid, iso, nao))
                             cnt("warm_start_reruns")
                             dE_w = float(warm["Etot"][0]) - sum(float(o["Etot"][0]) for o in iso)
                             if not bool(warm["notconverged"][0]) and abs(dE_w) <= TOL_CUT:
